@@ -23,8 +23,8 @@ import (
 	"fmt"
 	"io"
 	"os"
-	"path"
 	"os/exec"
+	"path"
 	"path/filepath"
 	"runtime"
 	"sort"
@@ -47,23 +47,24 @@ func init() { Registry["C03"] = runC03 }
 // ---------------------------------------------------------------------------
 
 type c34Env struct {
-	c         *Ctx
-	tree      *SrcTree
-	td        string         // /repo/internal/sign/testdata
-	exact     map[int]string // files of exactly n bytes
-	bigRand   string         // larger than every compressor block in the quick tier (300 KiB, random)
-	bigZero   string         // 300 KiB of zeros
-	hugeRand  string         // thorough: 3 MiB random
-	hugeZero  string         // thorough: 3 MiB zeros
-	hugeOdd   string         // thorough: 1 MiB + 1 byte (one byte past the pgzip block)
-	small     []string       // many small files
-	frac      []string       // source files whose modification time has a sub-second part (.7, .3, .5 s)
-	scripts   map[string]string
-	changelog string
-	dpkgDeb   string // path of dpkg-deb or ""
-	xz        string // path of xz or ""
-	seq       atomic.Int64
-	segCap    int // apk segments larger than this are not sent through the Lean byte-list model
+	c             *Ctx
+	tree          *SrcTree
+	td            string         // /repo/internal/sign/testdata
+	exact         map[int]string // files of exactly n bytes
+	bigRand       string         // larger than every compressor block in the quick tier (300 KiB, random)
+	bigZero       string         // 300 KiB of zeros
+	hugeRand      string         // thorough: 3 MiB random
+	hugeZero      string         // thorough: 3 MiB zeros
+	hugeOdd       string         // thorough: 1 MiB + 1 byte (one byte past the pgzip block)
+	small         []string       // many small files
+	frac          []string       // source files whose modification time has a sub-second part (.7, .3, .5 s)
+	scripts       map[string]string
+	changelog     string
+	longChangelog string
+	dpkgDeb       string // path of dpkg-deb or ""
+	xz            string // path of xz or ""
+	seq           atomic.Int64
+	segCap        int // apk segments larger than this are not sent through the Lean byte-list model
 }
 
 const c34Changelog = `---
@@ -163,6 +164,16 @@ func c34Setup(c *Ctx) (*c34Env, error) {
 		e.frac = append(e.frac, p)
 	}
 	if e.changelog, err = write("changelog.yaml", []byte(c34Changelog)); err != nil {
+		return nil, err
+	}
+	// a long history: the formatted changelog is several KiB larger than its gzip form, so an Installed-Size that
+	// counted anything but the bytes shipped would be off by whole KiB
+	var long strings.Builder
+	long.WriteString("---\n")
+	for i := 60; i >= 1; i-- {
+		fmt.Fprintf(&long, "- semver: 1.%d.0\n  date: 2021-03-%02dT05:06:07Z\n  packager: Verif <verif@example.com>\n  changes:\n    - commit: %040x\n      note: \"release %d: the usual round of fixes and improvements\"\n    - note: \"and a second note for release %d\"\n", i, 1+i%28, i*7919, i, i)
+	}
+	if e.longChangelog, err = write("changelog-long.yaml", []byte(long.String())); err != nil {
 		return nil, err
 	}
 	seen := map[string]bool{}
@@ -328,6 +339,10 @@ func (e *c34Env) withScripts(s *PkgSpec, sels []string) *PkgSpec {
 			setScript(info, sel, e.scripts[sel])
 		}
 	})
+}
+
+func (e *c34Env) withLongChangelog(s *PkgSpec) *PkgSpec {
+	return c10derive(s, map[string]any{"changelog": "60 releases, two notes each (changelog-long.yaml)"}, func(info *nfpm.Info) { info.Changelog = e.longChangelog })
 }
 
 func (e *c34Env) withChangelog(s *PkgSpec) *PkgSpec {
@@ -629,6 +644,9 @@ func (e *c34Env) extrasCases(r *rng.R) []c34Case {
 					for _, comp := range []string{"", "xz", "zstd"} {
 						s := e.withChangelog(c34WithCompression(base, comp, comp))
 						out = append(out, c34Case{S: s, Format: f, Class: p.Class, Label: fmt.Sprintf("extras/%s/%s/changelog/%s/%s", f, p.Class, comp, mtl), MustBuild: true})
+						if comp == "" {
+							out = append(out, c34Case{S: e.withLongChangelog(base), Format: f, Class: p.Class, Label: fmt.Sprintf("extras/%s/%s/long-changelog/%s", f, p.Class, mtl), MustBuild: true})
+						}
 						if f == "deb" {
 							s2 := e.withDebSign(e.withScripts(s, sels), "dpkg-sig", "", c34PGPKeys[1])
 							out = append(out, c34Case{S: s2, Format: f, Class: p.Class, Label: fmt.Sprintf("extras/deb/%s/changelog+scripts+dpkg-sig/%s/%s", p.Class, comp, mtl), MustBuild: true})
